@@ -27,10 +27,19 @@
                `deserialise (serialise z) = Ok z'` with `z'` the same zone up to record order, for
                every zone built through the insertion API that satisfies `ZoneTextOK` and holds no
                stray SOA-typed record.
+    * parsed   `C13_parsed_zone_hypotheses`: EVERY zone `Zone::deserialise` returns, for every text,
+               is built through the insertion API, holds no stray SOA-typed record and satisfies
+               `ZoneTextOK` but for its `NoStar` clause (parsed names are text names, parsed RDATA fits
+               its type, TTLs are `u32`); hence `C13_parsed_zone_roundtrips` and the idempotence of
+               normalisation `C13_normalise_idempotent` (`ztoz ∘ ztoz = ztoz` up to record order) under
+               the explicit premise that no ordinary owner starts with `*` — which cannot be dropped:
+               `C13_K1_parsed_zone_breaks_roundtrip` (`$ORIGIN *.e.` + `@ …` parses, is written
+               `*.e. …`, and reads back as a wildcard record: open finding C13-K1 at the zone level).
   The `ztext-roundtrip` stream checks the same statement on the Rust (and the model against it) on
   every case.
 -/
 import Resolved.Proofs.ZoneTextTree
+import Resolved.Proofs.ZoneTextParsed
 
 namespace Resolved
 
@@ -314,5 +323,238 @@ theorem C13_roundtrip (apex : Name) (soa : Option SOA) (ops : List ZoneOp) (z : 
 theorem C13_sameZone_trans {a b c : Zone} (h1 : SameZone a b) (h2 : SameZone b c) : SameZone a c :=
   ⟨h1.1.trans h2.1, h1.2.1.trans h2.2.1, fun n zr => (h1.2.2.1 n zr).trans (h2.2.2.1 n zr),
    fun n zr => (h1.2.2.2 n zr).trans (h2.2.2.2 n zr)⟩
+
+/-! ## zones obtained by parsing: normalising a zone file twice changes nothing more
+
+`C13_roundtrip` is stated for zones satisfying `ZoneTextOK` / `OnlyOwnSoa` / built through the
+insertion API.  Here: EVERY zone that `Zone::deserialise` returns, for EVERY text, satisfies all of
+these hypotheses except the `NoStar` clause (the gap of open finding C13-K1, which is genuinely
+false for some parsed zones: `C13_K1_parsed_zone_breaks_roundtrip`).  Proofs/ZoneTextParsed.lean. -/
+
+/-- `ZoneTextOK` without its `NoStar` clause. -/
+abbrev ZoneTextOK' (z : Zone) : Prop := zp_ZoneTextOK z
+
+theorem C13_zoneTextOK_split (z : Zone) :
+    ZoneTextOK z ↔ ZoneTextOK' z ∧ ∀ p ∈ z.allRecords, NoStar p.1 :=
+  zp_zoneTextOK_iff z
+
+/-- **Every name the parser produces is a text name** (labels ASCII, no `.`, lower-case, ≤ 63 octets;
+    well-formed): `parse_domain` rejects non-ASCII strings (so a `\DDD` escape ≥ 128 in a name is an
+    error), and `from_dotted_string` splits at EVERY dot — an escaped `\.` included
+    (`C11_K2_escaped_dot_splits_label`) — so no label of a parsed name holds a `.`.  `o` = the origin
+    in force, itself a parsed name. -/
+theorem C13_parsed_names_are_text {o : Option Name} (ho : ∀ on, o = some on → TextName on) {s : List Char} :
+    (∀ n, parseDomain o s = .ok n → TextName n) ∧
+    (∀ n, parseDomainOrWildcard o s = .ok (.normal n) → TextName n) ∧
+    (∀ n, parseDomainOrWildcard o s = .ok (.wildcard n) → TextName n) :=
+  ⟨fun _ h => zp_parseDomain_text ho h, fun _ h => zp_parseDomainOrWildcard_text ho h,
+   fun _ h => zp_parseDomainOrWildcard_text ho h⟩
+
+/-- **Every RDATA the parser builds fits its type**: one of the 17 non-SOA types with text names,
+    in-range numbers, real addresses (`RdataOK`), or a SOA with text names and `u32` numbers. -/
+theorem C13_parsed_rdata_ok {o : Option Name} (ho : ∀ on, o = some on → TextName on) {tokens : List Token}
+    {rd : RData} (h : tryParseRtypeWithData o tokens = some rd) :
+    RdataOK rd.rtype rd.fields ∨ (rd.rtype = 6 ∧ ∃ s : SOA, rd.fields = s.toFields ∧ SoaOK s) :=
+  zp_tryParse_ok ho h
+
+/-- **Every entry `parse_entry` returns is well formed**, for every text, fuel, origin / previous owner
+    / previous TTL that are themselves well formed: owner a text name, TTL a `u32`, RDATA as above. -/
+theorem C13_parsed_entry_ok (fuel : Nat) {o : Option Name} {pd : Option MaybeWildcard} {pt : Option Nat}
+    {s : List Char} {e : Entry} {rest : List Char} (ho : zp_OriginOK o) (hpd : zp_PdOK pd) (hpt : zp_PtOK pt)
+    (h : parseEntry fuel o pd pt s = .ok (some e) rest) : zp_EntryOK e :=
+  zp_parseEntry_ok fuel ho hpd hpt h
+
+/-- **Every zone obtained by parsing satisfies the hypotheses of `C13_roundtrip`, `NoStar` apart.**
+    For every text `t` with `Zone::deserialise t = Ok z`:
+      * `z` is built through the insertion API: `Zone::new(apex, soa)` + `insert` / `insert_wildcard`
+        calls, `apex` a name `from_labels` accepts;
+      * `OnlyOwnSoa z`: a second SOA is `MultipleSOA`, a wildcard SOA `WildcardSOA`, so the only
+        SOA-typed record is the zone's own at the apex;
+      * `ZoneTextOK' z`: apex, owners and RDATA names are text names; every record that is not the
+        SOA fits one of the 17 non-SOA types; TTLs (raised to the SOA MINIMUM by `actual_ttl`) are
+        `u32`; the SOA's names are text names and its numbers `u32`; a zone without SOA has the root
+        as apex. -/
+theorem C13_parsed_zone_hypotheses {t : List Char} {z : Zone} (h : deserialise t = .ok z) :
+    (∃ apex soa ops, NameOK apex ∧ Zone.build apex soa ops = some z) ∧ OnlyOwnSoa z ∧ ZoneTextOK' z :=
+  zp_parsed_props h
+
+/-- **A parsed zone round-trips**, provided no ordinary owner's first label starts with `*` (the
+    premise is exactly the gap of open finding C13-K1 and cannot be dropped:
+    `C13_K1_parsed_zone_breaks_roundtrip`). -/
+theorem C13_parsed_zone_roundtrips {t : List Char} {z : Zone} (h : deserialise t = .ok z)
+    (hs : ∀ p ∈ z.allRecords, NoStar p.1) :
+    ∃ z', deserialise (serialise z) = .ok z' ∧ SameZone z' z := by
+  obtain ⟨⟨apex, soa, ops, hap, hb⟩, hsoa, hok⟩ := C13_parsed_zone_hypotheses h
+  exact C13_roundtrip apex soa ops z hap hb ((C13_zoneTextOK_split z).mpr ⟨hok, hs⟩) hsoa
+
+/-- the `NoStar` premise is a property of the record set: it passes along `SameZone` to any parsed
+    zone (every owner a parsed zone lists holds at least one record). -/
+theorem C13_noStar_of_sameZone {t' : List Char} {z' z : Zone} (h' : deserialise t' = .ok z')
+    (hsz : SameZone z' z) (hs : ∀ p ∈ z.allRecords, NoStar p.1) : ∀ p ∈ z'.allRecords, NoStar p.1 := by
+  intro p hp
+  obtain ⟨n, zrs⟩ := p
+  obtain ⟨zr, hzr⟩ := zp_parsed_allRecords_nonempty h' hp
+  obtain ⟨zrs', hm, -⟩ := (hsz.2.2.1 n zr).mp ⟨zrs, hp, hzr⟩
+  exact hs (n, zrs') hm
+
+/-- **C13, idempotence of normalisation** (`ztoz ∘ ztoz = ztoz` up to record order): for every text
+    `t` that parses to a zone `z` without a `*…` ordinary owner, writing `z` and reading it back
+    gives `z'`, writing `z'` and reading it back gives `z''`, and all three are the same zone up to
+    the order of the records of an owner.  (`z'` needs no premise of its own: it is itself a parsed
+    zone, and `NoStar` passes along `SameZone`.) -/
+theorem C13_normalise_idempotent {t : List Char} {z : Zone} (h : deserialise t = .ok z)
+    (hs : ∀ p ∈ z.allRecords, NoStar p.1) :
+    ∃ z' z'', deserialise (serialise z) = .ok z' ∧ deserialise (serialise z') = .ok z'' ∧
+      SameZone z' z ∧ SameZone z'' z' ∧ SameZone z'' z := by
+  obtain ⟨z', h1, hsz1⟩ := C13_parsed_zone_roundtrips h hs
+  obtain ⟨z'', h2, hsz2⟩ := C13_parsed_zone_roundtrips h1 (C13_noStar_of_sameZone h1 hsz1 hs)
+  exact ⟨z', z'', h1, h2, hsz1, hsz2, C13_sameZone_trans hsz2 hsz1⟩
+
+/-- the same, for a given first re-read `z'`. -/
+theorem C13_normalise_idempotent_given {t : List Char} {z z' : Zone} (h : deserialise t = .ok z)
+    (hs : ∀ p ∈ z.allRecords, NoStar p.1) (h' : deserialise (serialise z) = .ok z') :
+    (∀ p ∈ z'.allRecords, NoStar p.1) ∧ SameZone z' z ∧
+    ∃ z'', deserialise (serialise z') = .ok z'' ∧ SameZone z'' z' ∧ SameZone z'' z := by
+  obtain ⟨z1, z'', h1, h2, hsz1, hsz2, hsz3⟩ := C13_normalise_idempotent h hs
+  rw [h'] at h1
+  cases h1
+  exact ⟨C13_noStar_of_sameZone h' hsz1 hs, hsz1, z'', h2, hsz2, hsz3⟩
+
+/-- **when parsing succeeds**: as soon as the entry loop reaches the end of the text and every record
+    lies under the apex (the SOA's owner, or the root) — the insertion loops never panic on what the
+    parser hands them. -/
+theorem C13_parse_succeeds {t : List Char} {st : DState}
+    (hl : deserialiseLoop (t.length + 1) {} t = some (.ok st))
+    (hsub : ∀ rr, rr ∈ st.rrs ∨ rr ∈ st.wildcardRrs → rr.name.isSubdomainOf st.apex = true) :
+    ∃ z, deserialise t = .ok z :=
+  zp_deserialise_of_loop hl hsub
+
+/-! ### non-vacuity: a concrete file -/
+
+/-- `$ORIGIN e.` / `@ IN SOA m r 1 2 3 4 5` / `w 9 IN A 1.2.3.4` / `*.x 7 IN TXT "a b"`. -/
+def C13_exampleText : List Char :=
+  ['$','O','R','I','G','I','N',' ','e','.','\n',
+   '@',' ','I','N',' ','S','O','A',' ','m',' ','r',' ','1',' ','2',' ','3',' ','4',' ','5','\n',
+   'w',' ','9',' ','I','N',' ','A',' ','1','.','2','.','3','.','4','\n',
+   '*','.','x',' ','7',' ','I','N',' ','T','X','T',' ','"','a',' ','b','"','\n']
+
+def C13_exampleSoa : SOA := ⟨⟨[[109], [101], []], 5⟩, ⟨[[114], [101], []], 5⟩, 1, 2, 3, 4, 5⟩
+
+def C13_exampleState : DState :=
+  { rrs := [{ name := ⟨[[119], [101], []], 5⟩, rtype := 1, fields := [.a 16909060], rclass := 1, ttl := 9 }],
+    wildcardRrs := [{ name := ⟨[[120], [101], []], 5⟩, rtype := 16, fields := [.opaque [97, 32, 98]],
+                      rclass := 1, ttl := 7 }],
+    apexAndSoa := some (⟨[[101], []], 3⟩, C13_exampleSoa),
+    origin := some ⟨[[101], []], 3⟩,
+    previousDomain := some (.wildcard ⟨[[120], [101], []], 5⟩),
+    previousTtl := some 7 }
+
+def C13_exampleZone : Zone :=
+  { apex := ⟨[[101], []], 3⟩, soa := some C13_exampleSoa,
+    records := .mk ⟨[[101], []], 3⟩ [(6, [⟨6, C13_exampleSoa.toFields, 5⟩])] none
+      [([119], .mk ⟨[[119], [101], []], 5⟩ [(1, [⟨1, [.a 16909060], 9⟩])] none []),
+       ([120], .mk ⟨[[120], [101], []], 5⟩ [] (some [(16, [⟨16, [.opaque [97, 32, 98]], 7⟩])]) [])] }
+
+set_option maxRecDepth 8000 in
+theorem C13_example_loop :
+    deserialiseLoop (C13_exampleText.length + 1) {} C13_exampleText = some (.ok C13_exampleState) := by rfl
+
+/-- the concrete file parses, to the zone written out above. -/
+theorem C13_example_parses : deserialise C13_exampleText = .ok C13_exampleZone := by
+  rw [zp_deserialise_evalC C13_example_loop]; rfl
+
+theorem C13_example_noStar : ∀ p ∈ C13_exampleZone.allRecords, NoStar p.1 := by
+  have : C13_exampleZone.allRecords
+      = [(⟨[[101], []], 3⟩, [⟨6, C13_exampleSoa.toFields, 5⟩]),
+         (⟨[[119], [101], []], 5⟩, [⟨1, [.a 16909060], 9⟩])] := by rfl
+  intro p hp
+  rw [this] at hp
+  simp only [List.mem_cons, List.not_mem_nil, or_false] at hp
+  rcases hp with rfl | rfl <;> (intro l ls h; cases h; decide)
+
+/-- the theorems applied to the concrete file: hypotheses, round trip, idempotence. -/
+example :
+    ((∃ apex soa ops, NameOK apex ∧ Zone.build apex soa ops = some C13_exampleZone) ∧
+      OnlyOwnSoa C13_exampleZone ∧ ZoneTextOK' C13_exampleZone) ∧
+    (∃ z', deserialise (serialise C13_exampleZone) = .ok z' ∧ SameZone z' C13_exampleZone) ∧
+    (∃ z' z'', deserialise (serialise C13_exampleZone) = .ok z' ∧ deserialise (serialise z') = .ok z'' ∧
+      SameZone z' C13_exampleZone ∧ SameZone z'' z' ∧ SameZone z'' C13_exampleZone) :=
+  ⟨C13_parsed_zone_hypotheses C13_example_parses,
+   C13_parsed_zone_roundtrips C13_example_parses C13_example_noStar,
+   C13_normalise_idempotent C13_example_parses C13_example_noStar⟩
+
+/-! ### the `NoStar` premise cannot be dropped (open finding C13-K1, at the zone level) -/
+
+/-- `$ORIGIN *.e.` / `@ 9 IN A 1.2.3.4`. -/
+def C13_K1_text : List Char :=
+  ['$','O','R','I','G','I','N',' ','*','.','e','.','\n',
+   '@',' ','9',' ','I','N',' ','A',' ','1','.','2','.','3','.','4','\n']
+
+def C13_K1_state : DState :=
+  { rrs := [{ name := ⟨[[42], [101], []], 5⟩, rtype := 1, fields := [.a 16909060], rclass := 1, ttl := 9 }],
+    origin := some ⟨[[42], [101], []], 5⟩,
+    previousDomain := some (.normal ⟨[[42], [101], []], 5⟩),
+    previousTtl := some 9 }
+
+/-- the zone the text parses to: the ORDINARY owner `*.e.` (labels `*`, `e`) holding one A record. -/
+def C13_K1_zone : Zone :=
+  { apex := Name.root, soa := none,
+    records := .mk Name.root [] none
+      [([101], .mk ⟨[[101], []], 3⟩ [] none
+         [([42], .mk ⟨[[42], [101], []], 5⟩ [(1, [⟨1, [.a 16909060], 9⟩])] none [])])] }
+
+/-- what comes back after one write / read: the WILDCARD beneath `e.`. -/
+def C13_K1_zone' : Zone :=
+  { apex := Name.root, soa := none,
+    records := .mk Name.root [] none
+      [([101], .mk ⟨[[101], []], 3⟩ [] (some [(1, [⟨1, [.a 16909060], 9⟩])]) [])] }
+
+set_option maxRecDepth 8000 in
+theorem C13_K1_loop : deserialiseLoop (C13_K1_text.length + 1) {} C13_K1_text = some (.ok C13_K1_state) := by rfl
+
+set_option maxRecDepth 8000 in
+/-- **Open finding C13-K1 at the zone level: the `NoStar` premise cannot be dropped.**  The text
+    `$ORIGIN *.e.` + `@ 9 IN A 1.2.3.4` parses (so the zone satisfies every other hypothesis,
+    `C13_parsed_zone_hypotheses`), its only owner `*.e.` violates `NoStar`, `Zone::serialise` writes
+    it as `*.e. 9 IN A 1.2.3.4`, and reading that back SUCCEEDS with a DIFFERENT zone: the record has
+    become a wildcard record beneath `e.` — `ztoz` is not idempotent on this file. -/
+theorem C13_K1_parsed_zone_breaks_roundtrip :
+    deserialise C13_K1_text = .ok C13_K1_zone ∧
+    ¬ (∀ p ∈ C13_K1_zone.allRecords, NoStar p.1) ∧
+    serialise C13_K1_zone
+      = ['*','.','e','.',' ','9',' ','I','N',' ','A',' ','1','.','2','.','3','.','4','\n','\n'] ∧
+    deserialise (serialise C13_K1_zone) = .ok C13_K1_zone' ∧
+    ¬ SameZone C13_K1_zone' C13_K1_zone ∧
+    ¬ ∃ z', deserialise (serialise C13_K1_zone) = .ok z' ∧ SameZone z' C13_K1_zone := by
+  have hser : serialise C13_K1_zone
+      = ['*','.','e','.',' ','9',' ','I','N',' ','A',' ','1','.','2','.','3','.','4','\n','\n'] := by rfl
+  have hl' : deserialiseLoop ((serialise C13_K1_zone).length + 1) {} (serialise C13_K1_zone)
+      = some (.ok { wildcardRrs := [{ name := ⟨[[101], []], 3⟩, rtype := 1, fields := [.a 16909060],
+                                       rclass := 1, ttl := 9 }],
+                    previousDomain := some (.wildcard ⟨[[101], []], 3⟩), previousTtl := some 9 }) := by
+    rw [hser]; rfl
+  have hback : deserialise (serialise C13_K1_zone) = .ok C13_K1_zone' := by
+    rw [zp_deserialise_evalC hl']; rfl
+  have hne : ¬ SameZone C13_K1_zone' C13_K1_zone := by
+    intro hsz
+    have hw : FlatWild C13_K1_zone' ⟨[[101], []], 3⟩ ⟨1, [.a 16909060], 9⟩ :=
+      ⟨[⟨1, [.a 16909060], 9⟩], by
+        have : C13_K1_zone'.allWildcardRecords = [(⟨[[101], []], 3⟩, [⟨1, [.a 16909060], 9⟩])] := by rfl
+        rw [this]; simp, by simp⟩
+    obtain ⟨zrs, hm, -⟩ := (hsz.2.2.2 _ _).mp hw
+    have : C13_K1_zone.allWildcardRecords = [] := by rfl
+    rw [this] at hm
+    simp at hm
+  refine ⟨by rw [zp_deserialise_evalC C13_K1_loop]; rfl, ?_, hser, hback, hne, ?_⟩
+  · intro hs
+    have hm : ((⟨[[42], [101], []], 5⟩, [⟨1, [.a 16909060], 9⟩]) : Name × List ZoneRecord)
+        ∈ C13_K1_zone.allRecords := by
+      have : C13_K1_zone.allRecords = [(⟨[[42], [101], []], 5⟩, [⟨1, [.a 16909060], 9⟩])] := by rfl
+      rw [this]; simp
+    exact hs _ hm [42] [[101], []] rfl (by decide)
+  · rintro ⟨z', h1, hsz⟩
+    rw [hback] at h1
+    cases h1
+    exact hne hsz
 
 end Resolved
